@@ -1,3 +1,5 @@
 module verif
 
 go 1.23
+
+require golang.org/x/tools v0.29.0
